@@ -42,6 +42,7 @@ def numOps (op : String) (a : List String) : Option String :=
   | "num.check", _ => some "ok"
   | "num.mod", ts => some (match printParsed (modEnts ts) with | .ok l => "ok " ++ showSlots l | .error => "panic")
   | "num.modapi", ts => some (match printParsed (modEnts ts) with | .ok l => "ok " ++ showSlots l | .error => "panic")
+  | "num.apiok", ts => some (match printParsed (modEnts ts) with | .ok _ => "ok" | .error => "FAIL:unclassified")
   | "num.modok", ts => some (match printParsed (modEnts ts) with | .ok _ => "ok" | .error => "FAIL:unclassified")
   | _, _ => none
 end Llir.Drv
